@@ -379,6 +379,12 @@ class Full(Engine):
             return None
         if fn is range and not anysym:
             return range(*args)
+        if fn is range and len(args) == 1 and isinstance(args[0], z3.ExprRef):
+            # range(n) with symbolic n: bounded unrolling with an unwinding assertion (n must not exceed the unroll bound)
+            n = self.num(args[0])
+            k = self.unroll
+            self.unwind.append(z3.And(pc, n > self.const(k)))
+            return SList([(n > self.const(i), i) for i in range(k)])
         if fn in (list, tuple, sorted, reversed, enumerate, zip, sum, any, all, set, frozenset, dict, collections.deque,
                   bytes, bytearray, iter, next, id, hash, callable, divmod, map, filter):
             return self.builtin_containers(fn, args, kwargs, pc, anysym)
